@@ -335,3 +335,11 @@ def observables_differ(a, b):
         elif x != y:
             return f"{k}: {str(x)[:120]} (live object) vs {str(y)[:120]} (fresh object with the same attributes)"
     return None
+
+
+def gt(a, b):
+    """NaN-aware ``a > b`` for failure tests: True also when the comparison is undefined (a NaN on either side), so that
+    a result that is not a number can never pass as "within tolerance".  Arrays: True if any entry exceeds / is NaN."""
+    with np.errstate(invalid="ignore"):
+        le = np.asarray(np.asarray(a) <= np.asarray(b), dtype=bool)   # (also for exact rationals held as objects)
+    return not bool(le.all())
